@@ -49,7 +49,7 @@ def run(ctx):
     ctx.require("fail_fast_cases", c.get("fail_fast_cases", 0), 100)
     ctx.require("early_end_cases", c.get("early_end_cases", 0), 100)
     ctx.require("serial_switches", c.get("serial_switches", 0), 100000)
-    ctx.require("serial_timeouts_fired", c.get("serial_timeouts_fired", 0), 100)
+    ctx.require("serial_timeouts_fired", c.get("serial_timeouts_fired", 0), 30)
     ev = {"direct_mode": 0, "partial_start": 2, "partial_enabled": 3, "stalled_break": 4, "thread_error": 5, "pending_error": 6,
           "cache_evict": 7, "mem_wait": 8, "timed_out": 9, "worker_reuse": 10, "memlimit_error": 13, "threads_end": 14}
     for name, i in ev.items():
